@@ -108,6 +108,15 @@ func (x BinaryList) Value() interface{} {
 	return [][]byte(x)
 }
 
+func (x BinaryList) Len() int {
+	return len(x)
+}
+
+// Item is the binary value of the octets at position i
+func (x BinaryList) Item(i int) Value {
+	return Binary(b64.StdEncoding.EncodeToString(x[i]))
+}
+
 func (x BinaryList) Compare(y Comparable) int {
 	yl := [][]byte(y.(BinaryList))
 	if len(x) < len(yl) {
